@@ -101,6 +101,8 @@ struct OutcomeA {
     flushes: Vec<Option<u64>>, // per flush: the delta sent for the key, or None when nothing was sent
     run: sched::RunResult,
     bad: Option<String>,
+    /// two more flushes made after all threads have finished (nothing races them)
+    final_flushes: Vec<Option<u64>>,
 }
 
 fn execute_a(progs: &[Vec<Call>], schedule: &[usize]) -> OutcomeA {
@@ -150,8 +152,20 @@ fn execute_a(progs: &[Vec<Call>], schedule: &[usize]) -> OutcomeA {
     }
     let run = sched::run(bodies, schedule);
     let f = flushes.lock().unwrap().clone();
+    let mut final_flushes = vec![];
+    if !run.deadlock && !run.timed_out && run.panicked.is_empty() {
+        let mut writer = Writer::new(8192, false);
+        for _ in 0..2 {
+            driver.lock().unwrap().flush(&mut writer);
+            let payloads = writer.drain();
+            if let Ok(msgs) = parse_payloads(&payloads) {
+                let mine: Vec<&Msg> = msgs.iter().filter(|m| m.name == "c").collect();
+                final_flushes.push(mine.first().and_then(|m| m.values[0].parse::<u64>().ok()));
+            }
+        }
+    }
     let b = bad.lock().unwrap().clone();
-    OutcomeA { flushes: f, run, bad: b }
+    OutcomeA { flushes: f, run, bad: b, final_flushes }
 }
 
 fn answer_a(o: &OutcomeA) -> String {
@@ -206,6 +220,17 @@ fn oracle_a(out: &mut Out, progs: &[Vec<Call>], o: &OutcomeA) {
             }
         }
         return; // sums for absolute runs are judged by stream B (sequential)
+    }
+    // conservation, independent of the trace: once everything is quiet, all deltas ever sent add up to the increments
+    {
+        let total: u64 = progs.iter().flatten().filter_map(|c| if let Call::Inc(n) = c { Some(*n) } else { None }).fold(0u64, |a, b| a.wrapping_add(b));
+        let sent: u64 = o.flushes.iter().chain(o.final_flushes.iter()).flatten().fold(0u64, |a, b| a.wrapping_add(*b));
+        if sent != total {
+            out.oracle_fail(
+                "the deltas sent by all flushes (two more after the threads finished included) do not add up to the increments made",
+                &format!("increments total {} deltas sent {} (during the run {:?}, afterwards {:?}) trace {:?}", total, sent, o.flushes, o.final_flushes, o.run.trace),
+            );
+        }
     }
     // what had reached `current` when each flush loaded it: walk the trace
     let mut applied: u64 = 0;
